@@ -52,10 +52,14 @@ class Marker:
 
 
 class Ctx:
-    def __init__(self, needs_input_grad, saved=None):
+    def __init__(self, needs_input_grad, saved=None, attrs=None):
         self.needs_input_grad = tuple(needs_input_grad)
         self.saved = None
         self.saved_tensors = saved
+        # plain attributes stashed on ctx (`ctx.name = tensor`): in forward the OBJECT is recorded (identity matters:
+        # `ctx.covar_mat = covar_mat; return covar_mat` makes backward read the forward's output object, whatever the
+        # caller did to it in place meanwhile); in backward the dict maps the name to the symbolic tensor it reads
+        self.attrs = dict(attrs or {})
 
 
 def const(x):
@@ -117,9 +121,16 @@ class Exec:
         if isinstance(st, ast.Expr) and isinstance(st.value, ast.Constant) and isinstance(st.value.value, str):
             return
         if isinstance(st, ast.Assign):
-            if len(st.targets) != 1 or not isinstance(st.targets[0], ast.Name):
+            tg = st.targets[0] if len(st.targets) == 1 else None
+            if isinstance(tg, ast.Attribute) and isinstance(tg.value, ast.Name) and isinstance(self.env.get(tg.value.id), Ctx):
+                v = self.ev(st.value)
+                if not isinstance(v, T) or tg.attr in ("needs_input_grad", "saved_tensors"):
+                    raise TranslateError(f"line {st.lineno}: `ctx.{tg.attr} = …` of a non-tensor is outside the vocabulary")
+                self.env[tg.value.id].attrs[tg.attr] = v
+                return
+            if tg is None or not isinstance(tg, ast.Name):
                 raise TranslateError(f"line {st.lineno}: only `name = expr` assignments are in the vocabulary")
-            self.env[st.targets[0].id] = self.ev(st.value)
+            self.env[tg.id] = self.ev(st.value)
         elif isinstance(st, ast.If):
             c = self.ev(st.test)
             if not isinstance(c, bool):
@@ -164,6 +175,8 @@ class Exec:
             if v is None:
                 raise TranslateError(f"ctx.{e.attr} not available here")
             return v
+        if isinstance(o, Ctx) and e.attr in o.attrs:
+            return o.attrs[e.attr]
         if isinstance(o, T) and e.attr in ("dtype", "device"):
             return Marker(e.attr)
         raise TranslateError(f"line {e.lineno}: attribute .{e.attr} outside the vocabulary")
@@ -415,6 +428,9 @@ def _args(fn):
     return [a.arg for a in fn.args.args]
 
 
+LAST_CTX_ATTRS = []     # ctx-attribute report of every run_forward since the last reset (read by translate())
+
+
 def run_forward(fn, expect_args, needs_grad, nu, distname):
     names = _args(fn)
     if names != expect_args:
@@ -433,6 +449,14 @@ def run_forward(fn, expect_args, needs_grad, nu, distname):
     if not isinstance(ex.ret, T) or ex.ret.kind != "pair":
         raise TranslateError(f"{fn.name}: does not return a kernel-sized tensor")
     saved = ctx.saved
+    # ctx attributes: ("output", None) when the stashed object IS the returned tensor (saved-output aliasing: backward
+    # reads whatever the caller has made of the result), else ("value", value when forward returns)
+    info = {}
+    for name, obj in ctx.attrs.items():
+        if obj.kind != "pair":
+            raise TranslateError(f"{fn.name}: ctx.{name} is not a kernel-sized tensor")
+        info[name] = ("output", None) if obj is ex.ret else ("value", obj.val)
+    LAST_CTX_ATTRS.append(info)
     if needs_grad:
         if not saved or len(saved) != 1 or saved[0].kind != "pair":
             raise TranslateError(f"{fn.name}: expected exactly one kernel-sized saved tensor when needs_grad")
@@ -442,11 +466,41 @@ def run_forward(fn, expect_args, needs_grad, nu, distname):
     return ex.ret.val, None
 
 
-def run_backward(fn, n_inputs):
+def ctx_attr_kinds(infos):
+    """name -> 'output' | 'value' for the needs_grad forward runs of one Function (must agree between branches)"""
+    kinds = {}
+    for info in infos:
+        for name, (k, _) in info.items():
+            if kinds.setdefault(name, k) != k:
+                raise TranslateError(f"ctx.{name} is the output object in one branch and another tensor in another")
+    return kinds
+
+
+def backward_params(kinds, expr):
+    """extra parameters (beyond grad_output, saved) the backward expression reads"""
+    used = set()
+
+    def walk(x):
+        if isinstance(x, tuple):
+            if x and x[0] == "var":
+                used.add(x[1])
+            for y in x[1:]:
+                walk(y)
+    walk(expr)
+    out = []
+    for name, k in kinds.items():
+        v = "output" if k == "output" else f"ctx_{name}"
+        if v in used and v not in out:
+            out.append(v)
+    return out
+
+
+def run_backward(fn, n_inputs, kinds=None):
     names = _args(fn)
     if names != ["ctx", "grad_output"]:
         raise TranslateError(f"backward signature changed: {names}")
-    ctx = Ctx([False] * n_inputs, saved=(T("pair", ("var", "saved")),))
+    attrs = {name: T("pair", ("var", "output" if k == "output" else f"ctx_{name}")) for name, k in (kinds or {}).items()}
+    ctx = Ctx([False] * n_inputs, saved=(T("pair", ("var", "saved")),), attrs=attrs)
     ex = Exec({"ctx": ctx, "grad_output": T("pair", ("var", "grad_output"))})
     ex.run(fn.body)
     r = ex.ret
@@ -459,6 +513,22 @@ def run_backward(fn, n_inputs):
         elif v is not None:
             raise TranslateError(f"backward returns a gradient for input {i}")
     return r[2].val
+
+
+def _emit_bwd(doc, name, g, kinds):
+    """`backward` as a definition.  Unchanged two-argument form when it reads only `grad_output` and the saved tensor;
+    when it also reads tensors stashed on `ctx` they become further parameters — `output` is the forward's RESULT
+    OBJECT as it is at backward time (saved-output aliasing), so the signature states what the derivative claim
+    depends on (the two-argument theorems of Props/C19 no longer type-check: a proof obligation, not a crash)."""
+    extra = backward_params(kinds, g)
+    if not extra:
+        if doc.endswith("`"):
+            return f"/-- `{doc} -/\ndef {name} (grad_output saved : α) : α :=\n  {lean(g)}\n\n"
+        return f"/-- `{doc} -/\ndef {name} (grad_output saved : α) : α :=\n  {lean(g)}\n\n"
+    note = "; ".join(("`output` = the tensor RETURNED by forward, read when backward runs (in-place edits of the result "
+                      "are seen)") if v == "output" else f"`{v}` = `ctx.{v[4:]}` as stashed by forward" for v in extra)
+    return (f"/-- `{doc} — reads beyond the saved tensor: {note} -/\n"
+            f"def {name} (grad_output saved {' '.join(extra)} : α) : α :=\n  {lean(g)}\n\n")
 
 
 HEADER = """/-
@@ -494,7 +564,9 @@ def translate(repo):
     t = src("gpytorch/functions/rbf_covariance.py")
     fwd, bwd = _find(t, "RBFCovariance", "forward"), _find(t, "RBFCovariance", "backward")
     sig = ["ctx", "x1", "x2", "lengthscale", "sq_dist_func"]
+    del LAST_CTX_ATTRS[:]
     o, _ = run_forward(fwd, sig, False, None, "sqd")
+    del LAST_CTX_ATTRS[:]        # only the needs_grad run feeds backward
     out.append("/-- `RBFCovariance.forward`, no gradient needed: the returned covariance entry -/\n"
                f"def rbfFwdNoGradOut (sqd : List α → List α → α) (x1 x2 : List α) (lengthscale : α) : α :=\n  {lean(o)}\n\n")
     o, s = run_forward(fwd, sig, True, None, "sqd")
@@ -502,26 +574,40 @@ def translate(repo):
                f"def rbfFwdGradOut (sqd : List α → List α → α) (x1 x2 : List α) (lengthscale : α) : α :=\n  {lean(o)}\n\n")
     out.append("/-- `RBFCovariance.forward`, `needs_grad`: the tensor saved for backward (`d_output_d_input`) -/\n"
                f"def rbfFwdGradSaved (sqd : List α → List α → α) (x1 x2 : List α) (lengthscale : α) : α :=\n  {lean(s)}\n\n")
-    g = run_backward(bwd, 4)
-    out.append("/-- `RBFCovariance.backward`: the entry of `lengthscale_grad` (summed over pairs by autograd) -/\n"
-               f"def rbfBwd (grad_output saved : α) : α :=\n  {lean(g)}\n\n")
+    for name, (k, v) in LAST_CTX_ATTRS[-1].items():
+        if k == "value":
+            out.append(f"/-- `RBFCovariance.forward`, `needs_grad`: the tensor stashed as `ctx.{name}` -/\n"
+                       f"def rbfFwdGradCtx_{name} (sqd : List α → List α → α) (x1 x2 : List α) (lengthscale : α) : α :=\n"
+                       f"  {lean(v)}\n\n")
+    kinds = ctx_attr_kinds(LAST_CTX_ATTRS)
+    g = run_backward(bwd, 4, kinds)
+    out.append(_emit_bwd("RBFCovariance.backward`: the entry of `lengthscale_grad` (summed over pairs by autograd)",
+                         "rbfBwd", g, kinds))
 
     # ---- Matern
     t = src("gpytorch/functions/matern_covariance.py")
     fwd, bwd = _find(t, "MaternCovariance", "forward"), _find(t, "MaternCovariance", "backward")
     sig = ["ctx", "x1", "x2", "lengthscale", "nu", "dist_func"]
+    matern_infos = []
     for tag, nu in NU.items():
         o, _ = run_forward(fwd, sig, False, nu, "distf")
+        del LAST_CTX_ATTRS[:]
         out.append(f"/-- `MaternCovariance.forward`, nu = {nu}, no gradient needed -/\n"
                    f"def matern{tag}FwdNoGradOut (distf : List α → List α → α) (x1 x2 mean : List α) (lengthscale : α) : α :=\n  {lean(o)}\n\n")
         o, s = run_forward(fwd, sig, True, nu, "distf")
+        matern_infos += LAST_CTX_ATTRS
+        for name, (k, v) in LAST_CTX_ATTRS[-1].items():
+            if k == "value":
+                out.append(f"/-- `MaternCovariance.forward`, nu = {nu}: the tensor stashed as `ctx.{name}` -/\n"
+                           f"def matern{tag}FwdGradCtx_{name} (distf : List α → List α → α) (x1 x2 mean : List α) "
+                           f"(lengthscale : α) : α :=\n  {lean(v)}\n\n")
         out.append(f"/-- `MaternCovariance.forward`, nu = {nu}, `needs_grad`: returned entry -/\n"
                    f"def matern{tag}FwdGradOut (distf : List α → List α → α) (x1 x2 mean : List α) (lengthscale : α) : α :=\n  {lean(o)}\n\n")
         out.append(f"/-- `MaternCovariance.forward`, nu = {nu}, `needs_grad`: saved `d_output_d_input` -/\n"
                    f"def matern{tag}FwdGradSaved (distf : List α → List α → α) (x1 x2 mean : List α) (lengthscale : α) : α :=\n  {lean(s)}\n\n")
-    g = run_backward(bwd, 5)
-    out.append("/-- `MaternCovariance.backward` -/\n"
-               f"def maternBwd (grad_output saved : α) : α :=\n  {lean(g)}\n\n")
+    kinds = ctx_attr_kinds(matern_infos)
+    g = run_backward(bwd, 5, kinds)
+    out.append(_emit_bwd("MaternCovariance.backward`", "maternBwd", g, kinds))
 
     # ---- piecewise polynomial helpers
     t = src("gpytorch/kernels/piecewise_polynomial_kernel.py")
